@@ -400,6 +400,15 @@ R06.7 the only state shared between the output files of a run, the remote-templa
 						if listing {
 							fmt.Printf("SITE\t%q: \"\",\t// %s\n", key, r.Pos(x.Pos()))
 						}
+						// a loop that sits in a private helper of a reviewed function is reviewed under that function
+						if _, ok := reviewedMapRanges[key]; !ok {
+							for _, owner := range ownerChain(p, fd)[1:] {
+								if _, ok := reviewedMapRanges[owner+"|"+rangeOrigin(info, fd, x.X)]; ok {
+									key = owner + "|" + rangeOrigin(info, fd, x.X)
+									break
+								}
+							}
+						}
 						seenRanges[key]++
 						if rv, ok := reviewedMapRanges[key]; ok && seenRanges[key] <= rv.n {
 							c.OK("R06.1", key, r.Pos(x.Pos()), rv.why)
